@@ -150,6 +150,53 @@ fn union_check(sl: bool, sr: bool) {
     }
 }
 
+// quick-tier version of the same contract on the smallest maps that distinguish the two operand
+// orders: one entry each, SAME key, different values (left value must win)
+macro_rules! union_small_harness {
+    ($name:ident, $sl:expr, $sr:expr) => {
+        #[kani::proof]
+        #[kani::unwind(6)]
+        fn $name() {
+            union_small_check($sl, $sr);
+        }
+    };
+}
+union_small_harness!(hash_union_small_both_shared, true, true);
+union_small_harness!(hash_union_small_left_shared, true, false);
+union_small_harness!(hash_union_small_right_shared, false, true);
+union_small_harness!(hash_union_small_unique, false, false);
+
+fn union_small_check(sl: bool, sr: bool) {
+    unsafe {
+        UNION_ABSTRACT = true;
+        UNION_LOG = None;
+    }
+    let mut left = HashMap::new();
+    left.insert(iv(2), iv(20));
+    let mut right = HashMap::new();
+    right.insert(iv(2), iv(99));
+    let gl = Gc::new(left.clone());
+    let gr = Gc::new(right.clone());
+    let al = if sl { Some(gl.clone()) } else { None };
+    let ar = if sr { Some(gr.clone()) } else { None };
+    let mut l = SteelVal::HashMapV(SteelHashMap(gl));
+    let mut r = SteelVal::HashMapV(SteelHashMap(gr));
+    let res = hm_union(&mut l, &mut r);
+    match res {
+        Ok(SteelVal::HashMapV(SteelHashMap(m))) => {
+            assert!(unsafe { UNION_LOG } == Some((20, 99)), "the LEFT map is the receiver of the left-biased union, the right one its argument");
+            assert!(same_map(&m, &left), "union keeps the LEFT value for a common key");
+            if let Some(a) = &al {
+                assert!(same_map(a, &left), "a holder of the left map does not observe the update");
+            }
+            if let Some(a) = &ar {
+                assert!(same_map(a, &right), "a holder of the right map does not observe the update");
+            }
+        }
+        _ => assert!(false),
+    }
+}
+
 macro_rules! set_harness {
     ($name:ident, |$arg:ident, $k:ident| $call:expr, |$old:ident, $k2:ident| $expected:expr) => {
         #[kani::proof]
